@@ -26,7 +26,9 @@ def run(ctx):
     #    n+1 that start with one of k seed-chosen ops
     n, k = ctx.pick((2, 5), (3, 4))
     rnd = random.Random(ctx.seed)
-    first = rnd.sample(OPS, k)
+    # St304 always leads one family: the listed finding F-C03-2 (size declared under a no-body
+    # status) needs a 3-call program starting with a no-body status and is re-established every run
+    first = ["St304"] + rnd.sample([o for o in OPS if o != "St304"], k - 1)
     if os.environ.get("VERIF_C03_FIRST"):      # debugging aid: choose the first ops by hand
         first = os.environ["VERIF_C03_FIRST"].split(",")
     path, _ = ctx.tlc_gen("wire", "RespFramingGen", "RespFramingGen.cfg",
